@@ -70,20 +70,15 @@ Section Solver.
     else upd_s s (n :: s_simple s) (s_nodup s) (s_explored s) (s_open s) (s_fal s) (s_lb s) (s_ub s) (s_sol s) (s_abort s)
                (s_cache s) (s_dom s) (s_polls s) (s_crash s) (s_tie s) (s_compiles s).
 
-  (* abstract pop: remove the first cmp-maximal element *)
-  Fixpoint pq_max (l : list (@subproblem St)) : option (@subproblem St) :=
+  (* abstract pop (SimpleFringe = binary_heap_plus): extract a cmp-maximal element, positionally.
+     pq_pop l = Some (x, rest): x is the LAST cmp-maximal element of l, rest is l without that occurrence *)
+  Fixpoint pq_pop (l : list (@subproblem St)) : option (@subproblem St * list (@subproblem St)) :=
     match l with
     | [] => None
-    | x :: l' => match pq_max l' with
-                 | None => Some x
-                 | Some y => if is_gt (spcmp y x) then Some y else Some x
+    | x :: l' => match pq_pop l' with
+                 | None => Some (x, [])
+                 | Some (y, rest) => if is_gt (spcmp x y) then Some (x, l') else Some (y, x :: rest)
                  end
-    end.
-  Fixpoint pq_remove (x : @subproblem St) (l : list (@subproblem St)) : list (@subproblem St) :=
-    match l with
-    | [] => []
-    | y :: l' => if is_eq (spcmp x y) && (Nat.eqb (sp_depth x) (sp_depth y)) && (Nat.eqb (length (sp_path x)) (length (sp_path y)))
-                 then l' else y :: pq_remove x l'
     end.
 
   Definition fr_pop (s : sstate) : sstate * option (@subproblem St) :=
@@ -94,9 +89,9 @@ Section Solver.
       | None => (crashed s, None)
       end
     else
-      match pq_max (s_simple s) with
+      match pq_pop (s_simple s) with
       | None => (s, None)
-      | Some x => (upd_s s (pq_remove x (s_simple s)) (s_nodup s) (s_explored s) (s_open s) (s_fal s) (s_lb s) (s_ub s) (s_sol s)
+      | Some (x, rest) => (upd_s s rest (s_nodup s) (s_explored s) (s_open s) (s_fal s) (s_lb s) (s_ub s) (s_sol s)
                          (s_abort s) (s_cache s) (s_dom s) (s_polls s) (s_crash s) (s_tie s) (s_compiles s), Some x)
       end.
 
